@@ -63,6 +63,10 @@ CLAIMS['C20'] = dict(
    text="Theorems (Props/C20.v): an output rendered from sorted keys is identical for every permutation of the entries; a map built by inserting distinct keys is independent of insertion order; every hash-container iteration site found in the sources (list regenerated on every run) is classified and none emits in iteration order. Impl side: the same history is built from scratch, and every query / language operation repeated, in fresh processes (fresh hash seeds) under a fixed wall clock (LD_PRELOAD shim, no change to a2kit) and compared byte for byte: image bytes, catalog, tree, stat, geometry, glob, get (any/txt/rec/meta/block), mget, tokenize, detokenize, minify, renumber, verify, asm, dasm, pack. Language-server outputs are outside the property's list and not compared.",
    technique="Coq proof (order-independence lemmas, generated site classification) + repeated fresh-process byte comparison with fixed clock",
    design_ref='DESIGN.md section 5 C20')
+CLAIMS['C14'] = dict(
+   text="Theorems (Props/C14.v), each for all inputs: the Applesoft container (links = address of the following line for every load address and program below 64K, 00 00 end marker) and the Integer container (exact length bytes, 01 terminators) are walked back into the same lines; the escape codec shared by strings, REM and DATA is inverted by the tokenizer-side parser for every payload in every context (Applesoft and Integer, incl. literal backslash-x sequences, controls, high and lower-case negative bytes); the Merlin negative-ASCII/column-separator line encoding decodes to the same columns; the token tables regenerated from token_maps.rs on every run list the same bytes once each way (Applesoft exactly 128..234, Integer positive and never 01) and the constants the escape model uses are the ones in the source. Tie: escape/unescape/Merlin encode/decode outputs of the real functions must equal the extracted model on generated byte strings; every token stream the real tokenizers emit is re-assembled byte for byte by the model (so it lies in the image the theorems speak about) and its links close. PARTIAL: which statement becomes which token goes through the tree-sitter grammars (generated C), not modelled; that composition is covered by the implementation-side oracle only: verify_str -> tokenize -> detokenize -> verify_str -> tokenize over grammar-directed programs (all statements, spacing/case variants, escape-stress stream, boundary load addresses and line numbers), compared modulo the blanks after REM/DATA tokens.",
+   technique="Coq proof (container structure, escape codec round trip, Merlin byte codec, generated token tables) + extracted-model correspondence + round-trip oracle over generated programs",
+   design_ref='DESIGN.md section 5 C14')
 PLANNED = {f'C{i:02d}': 'check not built yet in this round (planned; see DESIGN.md section 10)' for i in range(1, 21)}
 
 def main():
